@@ -165,6 +165,61 @@ func c08values(md protoreflect.MessageDescriptor, rc *corpus.RouteCase) []struct
 		}
 		out = append(out, lv{s.c, m})
 	}
+	// string-keyed maps in the body: keys spelled like field names of the definition (both spellings) are data
+	hasMap := false
+	for i := 0; i < md.Fields().Len(); i++ {
+		hasMap = hasMap || md.Fields().Get(i).IsMap()
+	}
+	if hasMap {
+		for _, mc := range []struct {
+			c    string
+			keys []string
+		}{{"map-keys-like-field-names", []string{"display_name", "displayName", "extra_attrs", "full_name", "note", "rank_no", "by_name"}}, {"map-plain-keys", []string{"k1", "key two", "ключ", ""}}} {
+			m := sentinelReq(md)
+			fds := md.Fields()
+			for i := 0; i < fds.Len(); i++ {
+				fd := fds.Get(i)
+				switch {
+				case fd.IsMap() && fd.MapValue().Kind() == protoreflect.StringKind:
+					for j, k := range mc.keys {
+						m.Mutable(fd).Map().Set(protoreflect.ValueOfString(k).MapKey(), protoreflect.ValueOfString(fmt.Sprintf("v%d-%s", j, k)))
+					}
+				case fd.IsMap() && fd.MapValue().Message() != nil:
+					for j, k := range mc.keys {
+						v := m.Mutable(fd).Map().NewValue()
+						vm := v.Message()
+						vfs := vm.Descriptor().Fields()
+						for x := 0; x < vfs.Len(); x++ {
+							vf := vfs.Get(x)
+							switch {
+							case vf.IsMap() && vf.MapValue().Kind() == protoreflect.StringKind:
+								vm.Mutable(vf).Map().Set(protoreflect.ValueOfString(mc.keys[(j+1)%len(mc.keys)]).MapKey(), protoreflect.ValueOfString("inner-"+k))
+							case vf.Kind() == protoreflect.StringKind && !vf.IsList():
+								vm.Set(vf, protoreflect.ValueOfString("leaf-"+k))
+							case vf.Kind() == protoreflect.Int32Kind && !vf.IsList():
+								vm.Set(vf, protoreflect.ValueOfInt32(int32(j+1)))
+							}
+						}
+						m.Mutable(fd).Map().Set(protoreflect.ValueOfString(k).MapKey(), v)
+					}
+				case fd.Message() != nil && !fd.IsList():
+					vm := m.Mutable(fd).Message()
+					vfs := vm.Descriptor().Fields()
+					for x := 0; x < vfs.Len(); x++ {
+						vf := vfs.Get(x)
+						if vf.IsMap() && vf.MapValue().Kind() == protoreflect.StringKind {
+							for j, k := range mc.keys {
+								vm.Mutable(vf).Map().Set(protoreflect.ValueOfString(k).MapKey(), protoreflect.ValueOfString(fmt.Sprintf("n%d", j)))
+							}
+						} else if vf.Kind() == protoreflect.StringKind {
+							vm.Set(vf, protoreflect.ValueOfString("main"))
+						}
+					}
+				}
+			}
+			out = append(out, lv{mc.c, m})
+		}
+	}
 	// last on every route, after the calls above have carried values in every field: a request that
 	// leaves everything but the path variables at its default (clients omit defaults from query and body,
 	// so whatever a server keeps from an earlier request of the route would show here), twice
@@ -376,7 +431,7 @@ func c08unit(c *Ctx, u *routeUnit, ch, node *lab.Child, enc *jsonmap.Encoder) {
 
 func subOf(u *routeUnit) string {
 	p := u.File.Package
-	for _, s := range []string{"main", "noslash", "pathquery", "bodyquery", "shared"} {
+	for _, s := range []string{"main", "noslash", "pathquery", "bodyquery", "bodymap", "shared"} {
 		if strings.HasSuffix(p, s) {
 			return s
 		}
